@@ -73,6 +73,10 @@ def _extract_bracket_selectors(remaining: str) -> tuple[list[list[str]], str]:
         if definition:
             definitions.append(definition)
 
+    if not definitions:
+        # an empty list names nobody: without this, "no definition" reads as "no selector given" and matches every peer
+        definitions.append(['neighbor []'])
+
     return definitions, after_bracket
 
 
